@@ -136,11 +136,18 @@ Print Assumptions ordered_one_winner_per_ccid.
 
 (* --- same outcome everywhere ------------------------------------------ *)
 
-(* the verdicts and the final membership are a function of (start membership,
-   log): the model has no other input - no replica id, shard id, clock, map order *)
+(* The verdicts and the final membership are a function of the log and of the
+   CONTENT of the start membership: the model has no other input (no replica or
+   shard id, clock, randomness), and two replicas whose maps hold the same
+   entries in any internal order ([mequiv]: equal lookups, equal removed set,
+   equal ConfigChangeId; Go map layout / iteration order differ between
+   replicas and runs) produce the same verdict for every request and end in
+   memberships with the same content. *)
 Theorem outcome_is_function_of_log : forall norm ordered reqs m1 m2,
-  m1 = m2 -> run norm ordered m1 reqs = run norm ordered m2 reqs.
-Proof. exact outcome_deterministic. Qed.
+  nodup_inv m1 -> nodup_inv m2 -> mequiv m1 m2 ->
+  snd (run norm ordered m1 reqs) = snd (run norm ordered m2 reqs) /\
+  mequiv (fst (run norm ordered m1 reqs)) (fst (run norm ordered m2 reqs)).
+Proof. exact run_equiv. Qed.
 Print Assumptions outcome_is_function_of_log.
 
 (* a replica that took / installed a snapshot after [l1] (membership.get / set)
@@ -208,6 +215,15 @@ Example sample_state_meets_invariants :
   kinds_disjoint_inv sample_state /\ removed_disjoint_inv sample_state /\
   address_unique_inv norm_ascii sample_state /\ nodup_inv sample_state /\ voters_inv sample_state.
 Proof. exact sample_state_invariants. Qed.
+
+(* two representations of one membership content, in different internal order *)
+Example mequiv_witness :
+  let m1 := mkM 7 [(1, [104; 49]); (3, [104; 51])] [2; 9] [(5, [104; 53])] [] in
+  let m2 := mkM 7 [(3, [104; 51]); (1, [104; 49])] [9; 2] [(5, [104; 53])] [] in
+  m1 <> m2 /\ observe m1 = observe m2 /\
+  snd (run norm_ascii false m1 sample_reqs) = snd (run norm_ascii false m2 sample_reqs) /\
+  observe (fst (run norm_ascii false m1 sample_reqs)) = observe (fst (run norm_ascii false m2 sample_reqs)).
+Proof. vm_compute. repeat split; try reflexivity. discriminate. Qed.
 
 Example address_normalisation_witness :
   address_equal_ascii [32; 72; 79; 83; 84; 49; 58; 57; 9] [104; 111; 115; 116; 49; 58; 57] = true /\
